@@ -262,3 +262,28 @@ pub fn c02_wrappers<S: Src>(_s: &mut S) {
     for f in &failures { eprintln!("C02-WRAPPERS {}", f); }
     assert!(failures.is_empty(), "{} text entry points panic on malformed input; first: {}", failures.len(), failures[0]);
 }
+
+// ---------------------------------------------------------------- text helpers (JSON -> metadata / Plutus data) on non-ASCII strings
+pub fn c02_text_battery<S: Src>(_s: &mut S) {
+    let mut failures: Vec<String> = Vec::new();
+    let pieces = ["", "a", "0", "0x", "0x0", "0xzz", "€", "a€", "ab€", "0x€", "0€", "é", "aé", "日本", "😀", "a😀", "0x😀", "\u{7f}", "\u{80}", "0X12"];
+    let mut strings: Vec<String> = pieces.iter().map(|s| s.to_string()).collect();
+    for a in pieces.iter() { for b in ["€", "0x", "1"] { strings.push(format!("{}{}", a, b)); } }
+    for st in &strings {
+        let esc = st.replace('\\', "\\\\").replace('"', "\\\"");
+        let docs = [format!("\"{}\"", esc), format!("{{\"{}\": 1}}", esc), format!("[\"{}\"]", esc), format!("{{\"k\": \"{}\"}}", esc),
+                    format!("{{\"bytes\": \"{}\"}}", esc), format!("{{\"int\": \"{}\"}}", esc), format!("{{\"map\": [{{\"k\": {{\"bytes\": \"{}\"}}, \"v\": {{\"int\": 1}}}}]}}", esc)];
+        for d in &docs {
+            for schema in [MetadataJsonSchema::NoConversions, MetadataJsonSchema::BasicConversions, MetadataJsonSchema::DetailedSchema] {
+                let dd = d.clone();
+                if std::panic::catch_unwind(move || { let _ = encode_json_str_to_metadatum(dd, schema); }).is_err() { failures.push(format!("encode_json_str_to_metadatum panics on {:?} (schema {})", d, schema as u8)); }
+            }
+            for schema in [PlutusDatumSchema::BasicConversions, PlutusDatumSchema::DetailedSchema] {
+                let dd = d.clone();
+                if std::panic::catch_unwind(move || { let _ = encode_json_str_to_plutus_datum(&dd, schema); }).is_err() { failures.push(format!("encode_json_str_to_plutus_datum panics on {:?} (schema {})", d, schema as u8)); }
+            }
+        }
+    }
+    for f in failures.iter().take(8) { eprintln!("C02-TEXT {}", f); }
+    assert!(failures.is_empty(), "{} text helper calls panic on non-ASCII input; first: {}", failures.len(), failures[0]);
+}
